@@ -35,24 +35,36 @@ func runC35(c *Ctx) {
 		if cm == nil {
 			continue
 		}
-		// allocation bound
+		// allocation bound (the read-and-verify step may live in a helper that receives the header and the limit)
 		n := 0
-		for _, s := range c.sizeSinks() {
-			if s.fn != cm {
+		sinks := c.sizeSinks()
+		host, via := c.relocateVia(cm, func(g *ssa.Function) bool {
+			for _, s := range sinks {
+				if s.fn == g {
+					return true
+				}
+			}
+			return false
+		})
+		for _, s := range sinks {
+			if s.fn != host {
 				continue
 			}
 			n++
-			ok, why := c.boundedBy(s)
-			// the bound must be the message's own MaxLength()
-			okBound := false
-			for _, i := range ssau.Ifs(cm) {
-				if b, isB := i.Cond.(*ssa.BinOp); isB {
-					if (methodCallNamed(ssau.Unwrap(b.Y), "MaxLength") && sameRoot(stripConv(b.X, true), s.root)) || (methodCallNamed(ssau.Unwrap(b.X), "MaxLength") && sameRoot(stripConv(b.Y, true), s.root)) {
-						okBound = true
+			s := s
+			withVia(via, func() {
+				ok, why := c.boundedBy(s)
+				// the bound must be the message's own MaxLength()
+				okBound := false
+				for _, i := range ssau.Ifs(host) {
+					if b, isB := i.Cond.(*ssa.BinOp); isB {
+						if (methodCallNamed(ssau.Unwrap(b.Y), "MaxLength") && sameRoot(stripConv(b.X, true), s.root)) || (methodCallNamed(ssau.Unwrap(b.X), "MaxLength") && sameRoot(stripConv(b.Y, true), s.root)) {
+							okBound = true
+						}
 					}
 				}
-			}
-			c.R.Check("G-frame", name+"|payload buffer bounded by MaxLength()", ok && okBound, c.posOf(s.in), why)
+				c.R.Check("G-frame", name+"|payload buffer bounded by MaxLength()", ok && okBound, c.posOf(s.in), why)
+			})
 		}
 		c.R.Check("G-frame", name+"|allocation found", n == 1, c.pos(cm.Pos()), fmt.Sprintf("%d header-sized allocation(s)", n))
 		des := firstCall(cm, namedCall("Deserialize"))
@@ -63,7 +75,7 @@ func runC35(c *Ctx) {
 		}))
 		c.G1s("G-frame", name+"|Deserialize checked", cm, "message.Deserialize", namedCall("Deserialize"), G1Opt{})
 		// Verify is applied to the buffer that was read and that is decoded
-		for _, v := range ssau.CallsIn(cm, callPred(R{"p2p", "Header", "Verify"})) {
+		for _, v := range ssau.CallsIn(host, callPred(R{"p2p", "Header", "Verify"})) {
 			arg := v.Common().Args[1]
 			_, isMake := ssau.Unwrap(arg).(*ssa.MakeSlice)
 			c.R.Check("G-frame", name+"|Verify(payload)", isMake, c.posOf(v), "the verified bytes are the allocated payload buffer")
@@ -89,11 +101,21 @@ func runC35(c *Ctx) {
 	if hv := c.fn("p2p", "Header", "Verify"); hv != nil {
 		c.GuardSuccess("G-frame", "Header.Verify|checksum equality", hv, "bytes.Equal(header.Checksum, Sha256D(buf)[:4])", func(i *ssa.If) (bool, bool) {
 			x, neg := ssau.StripNot(i.Cond)
-			cl, ok := x.(*ssa.Call)
-			if !ok || cl.Call.StaticCallee() == nil || cl.Call.StaticCallee().String() != "bytes.Equal" {
+			var a, b ssa.Value
+			if cl, ok := x.(*ssa.Call); ok && cl.Call.StaticCallee() != nil && cl.Call.StaticCallee().String() == "bytes.Equal" {
+				a, b = cl.Call.Args[0], cl.Call.Args[1]
+			} else if bo, ok := x.(*ssa.BinOp); ok && (bo.Op == token.EQL || bo.Op == token.NEQ) {
+				// fixed-size checksums compared as arrays
+				if _, isArr := bo.X.Type().Underlying().(*types.Array); !isArr {
+					return false, false
+				}
+				a, b = bo.X, bo.Y
+				if bo.Op == token.NEQ {
+					neg = !neg
+				}
+			} else {
 				return false, false
 			}
-			a, b := cl.Call.Args[0], cl.Call.Args[1]
 			isSum := func(v ssa.Value) bool {
 				return ssau.DependsOn(v, func(y ssa.Value) bool { return methodCallNamed(y, "Sha256D") }) && ssau.DependsOn(v, func(y ssa.Value) bool { return paramNamed(y, "buf") })
 			}
